@@ -217,7 +217,51 @@ func sortInts(xs []int) {
 
 // genConc: a tree over Pipe (and array) sources; every reader that is live at the end is
 // a leaf with its own goroutine, every pipe has a writer goroutine.
+// genStorm: one pipe, optionally converted, copied 2-6 times (one copy possibly copied again);
+// every copy reads 0-2 items and then all of them are closed at the same instant (barrier);
+// the whole case is driven Reps times. Exercises the interleavings of the closes (and first
+// reads) of the copies of one stream: closedNum, the shared list element, sync.Once.
+func genStorm(r *lib.Rng, tier string) *Case {
+	c := &Case{Mode: "conc", Seed: r.U64(), Barrier: true, Reps: 100}
+	if tier == "thorough" {
+		c.Reps = 200
+	}
+	sh := newShadow()
+	emit := func(o Op) { c.Ops = append(c.Ops, o); sh.apply(o) }
+	emit(Op{K: "pipe", Cap: r.Intn(4)})
+	h := 0
+	if r.Chance(1, 3) {
+		emit(Op{K: "conv", H: h, F: genCFn(r)})
+		h = len(sh.hs) - 1
+	}
+	emit(Op{K: "copy", H: h, N: 2 + r.Intn(5), Via: via(r)})
+	if r.Chance(1, 3) {
+		live := liveHandles(sh, nil)
+		emit(Op{K: "copy", H: live[r.Intn(len(live))], N: 2 + r.Intn(3)})
+	}
+	for _, l := range liveHandles(sh, nil) {
+		c.Leaves = append(c.Leaves, Leaf{H: l, Max: []int{0, 0, 0, 1, 2}[r.Intn(5)]})
+	}
+	n := r.Intn(4)
+	w := Writer{HP: 0, Items: []Item{}}
+	for i := 0; i < n; i++ {
+		w.Items = append(w.Items, Item{V: uint64(i + 1), Err: r.Chance(1, 8)})
+	}
+	late := n > 0
+	for _, l := range c.Leaves {
+		if l.Max != 0 {
+			late = false
+		}
+	}
+	w.Late = late && r.Chance(1, 2)
+	c.Writers = []Writer{w}
+	return c
+}
+
 func genConc(r *lib.Rng, tier string) *Case {
+	if r.Chance(1, 6) {
+		return genStorm(r, tier)
+	}
 	c := &Case{Mode: "conc", Seed: r.U64()}
 	sh := newShadow()
 	maxBuild, maxH := 6, 14
